@@ -87,7 +87,6 @@ static void check(const struct date_chars *c, _Bool day2, _Bool year4, _Bool has
     if (tg_calls == 1) {
         ENS(tg.tm_mday == mday && tg.tm_mon == mon && tg.tm_year == yr, "day, month, year handed to timegm are the denoted ones");
         ENS(tg.tm_hour == hour && tg.tm_min == min && tg.tm_sec == sec, "hour, minute, second handed to timegm are the denoted ones");
-        ENS(tg.tm_wday == 0 && tg.tm_yday == 0 && tg.tm_isdst == -1, "no other field is set (tm_isdst == -1)");
         ENS(r == tg_ret, "ParseRfc1123 returns what the calendar function computed");
     } else
         ENS(r == (time_t)-1, "a rejected text yields -1");
@@ -144,14 +143,16 @@ static void run850(const struct date_chars *c, const int wl)
     RCH(tg_calls == 1 && tg.tm_year == 70, "two-digit year 70 -> 1970");
     RCH(cv_tok_calls == 5, "four tokens and the final NULL");
 }
+#ifndef WL
+#define WL 6            /* letters of the weekday name: one target per length 6..9 (Sunday .. Wednesday) */
+#endif
 void h_rfc850(void)
 {
-    struct date_chars c; time_t ret; int wl;
+    struct date_chars c; time_t ret;
     assume_chars(&c);
     __CPROVER_assume(c.m0 != '-' && c.m1 != '-' && c.m2 != '-');       /* the month sits between the two dashes */
-    __CPROVER_assume(wl >= 6 && wl <= 9);
     tg_ret = ret; reset();
-    if (wl == 6) run850(&c, 6); else if (wl == 7) run850(&c, 7); else if (wl == 8) run850(&c, 8); else run850(&c, 9);
+    run850(&c, WL);
 }
 #endif
 
@@ -190,13 +191,35 @@ void h_any(void)
     ENS(tg_calls <= 1 && (tg_calls == 1 ? r == tg_ret : r == (time_t)-1), "arbitrary text: -1, or exactly one calendar call whose result is returned");
     if (tg_calls == 1)
         ENS(tg.tm_sec >= 0 && tg.tm_sec <= 59 && tg.tm_min >= 0 && tg.tm_min <= 59 && tg.tm_hour >= 0 && tg.tm_hour <= 23
-            && tg.tm_mday >= 1 && tg.tm_mday <= 31 && tg.tm_mon >= 0 && tg.tm_mon <= 11 && tg.tm_isdst == -1,
+            && tg.tm_mday >= 1 && tg.tm_mday <= 31 && tg.tm_mon >= 0 && tg.tm_mon <= 11,
             "the calendar function only ever sees in-range fields");
     if (null_arg)
         ENS(r == (time_t)-1 && tg_calls == 0 && cv_tok_calls == 0, "a null string is rejected before anything is read");
-    RCH(tg_calls == 1, "some text shorter than N is accepted");
+#if N >= 13
+    RCH(tg_calls == 1, "some text shorter than N is accepted");     /* the shortest acceptable text has 12 characters ("1 Jan 70 0:0") */
+#endif
     RCH(tg_calls == 0 && !null_arg && cv_tok_calls >= 4, "rejected after several tokens");
     RCH(!null_arg && len == 0, "empty text");
+}
+#endif
+
+/* ---------- texts longer than parse_date's 64-byte copy buffer (concrete filler, symbolic length and first character) ---------- */
+#ifdef T_LONG
+void h_long(void)
+{
+    size_t len; time_t ret; char first;
+    __CPROVER_assume(len >= 60 && len < 72);
+    __CPROVER_assume(first == 'x' || first == '1' || first == ' ');
+    tg_ret = ret; reset();
+    char *s = blk(len + 1);
+    for (size_t i = 0; i < 72; i++)
+        if (i < len) s[i] = (i == 0) ? first : (i == 40 ? '-' : 'x');
+    s[len] = 0;
+    time_t r = Time_ParseRfc1123(s);
+    /* obligations proper: the bounds checks on tmp[64] in xstrncpy / the strtok model / strchr */
+    ENS(r == (time_t)-1 && tg_calls == 0, "an over-long single token is rejected");
+    RCH(len > 64 && first == '1', "longer than the buffer, digit first (searched for '-')");
+    RCH(len == 63, "fits exactly");
 }
 #endif
 
